@@ -17,7 +17,7 @@ import warnings
 
 import numpy as np
 
-from mc.explore import Acc
+from mc.explore import Acc, h64
 from mc.refs import matlaws as ref
 
 ID = "C16"
@@ -62,6 +62,7 @@ DEFAULT_RTOL, DEFAULT_TOL = 1e-5, 1e-6
 def bounds(tier):
     return {"RambergOsgood": RO_TIERS[tier], "Hooke": HOOKE if tier == "quick" else HOOKE_THOROUGH,
             "Hooke_states": "{-1,0,2}^k x 1e-3 (strain space) / x E*1e-3 (stress space), k = 1, 3, 6", "true": TRUE,
+            "call_histories": dict(HIST[tier], operations=["%s.%s" % o for o in _H_OPS], stress_factors_of_K=list(_H_FACT)),
             "EPS_MAX": EPS_MAX, "C": C}
 
 
@@ -75,6 +76,13 @@ def shards(tier):
         for rtol, tol in t["tolerances"]:
             out.append({"kind": "RO", "E": E, "K": K, "n": n, "rtol": rtol, "tol": tol,
                         "factors": list(t["factors"]), "strains": list(t["strains"])})
+    hh = HIST[tier]
+    # one shard per two-operation prefix (plus one for the sequences of length one)
+    nops = range(len(_H_OPS))
+    for mats, depth in ((hh["materials"], hh["depth"]), (hh.get("shallower_materials", ()), hh.get("shallower_depth"))):
+        for mat in mats:
+            out.append({"kind": "history", "material": list(mat), "depth": 1, "prefix": []})
+            out += [{"kind": "history", "material": list(mat), "depth": depth, "prefix": [i, j]} for i in nops for j in nops]
     return out
 
 
@@ -661,6 +669,167 @@ def run_true(acc):
             acc.outcomes.add(hash(("true", o)))
 
 
+# ------------------------------------------------------------------------------------------------- call histories
+# Every sequence of calls up to a depth over a small alphabet, on KEPT objects with caller-owned argument buffers:
+# two Ramberg-Osgood materials, HookesLaw1d, true_stress/true_strain, and three caller actions (refill a buffer in
+# place, restore it, scale the array returned last in place).  Oracles, for every call of every sequence:
+#   * the answer is the reference formula of the buffer's CURRENT content (same tolerances as the point checks),
+#   * the same question (operation, material, buffer content) gets the same answer in every history (rel 1e-14),
+#   * the caller's argument buffers are bit-for-bit what they were before the call,
+#   * every array returned earlier in the sequence and still held is bit-for-bit what it was when returned.
+HIST = {"quick": {"depth": 4, "materials": ((206e3, 1184.0, 0.187),)},
+        "thorough": {"depth": 4, "materials": ((206e3, 1184.0, 0.187), (70e3, 350.0, 0.05), (110e3, 2650.0, 0.5), (206e3, 600.0, 0.95))}}
+_H_FACT = (-0.9, -0.3, 0.0, 0.6, 0.8)
+_H_QUERIES = ("strain", "strain_scalar", "stress", "stress_scalar", "plastic_strain", "tangential_compliance",
+              "tangential_modulus", "delta_strain", "delta_stress", "lower_hysteresis")
+_H_OPS = [("M0", q) for q in _H_QUERIES] + [("M1", q) for q in _H_QUERIES] + \
+         [("H1", "stress"), ("H1", "strain"), ("T", "true_strain"), ("T", "true_stress"),
+          ("caller", "refill_S"), ("caller", "refill_E"), ("caller", "scale_last_result")]
+
+
+def _h_world(mat):
+    from pylife.materiallaws.rambgood import RambergOsgood
+    from pylife.materiallaws.hookeslaw import HookesLaw1d
+    E, K, n = mat
+    mats = {"M0": (E, K, n), "M1": (2.0 * E, 1.5 * K, min(0.97, 1.3 * n))}
+    S0 = [f * K for f in _H_FACT]
+    E0 = [ref.ro_strain(E, K, n, s) for s in S0]
+    return {"mats": mats, "obj": {k: RambergOsgood(*v) for k, v in mats.items()}, "H1": HookesLaw1d(E), "E": E,
+            "S": np.array(S0, dtype=float), "Eb": np.array(E0, dtype=float), "S0": S0, "E0": E0,
+            "S_alt": False, "E_alt": False, "held": [], "last": None}
+
+
+def _h_expected(w, who, q):
+    """-> (expected list or None, tolerance function) from the reference formulas, for the buffers' current content."""
+    S, Eb = w["S"].tolist(), w["Eb"].tolist()
+    if who in ("M0", "M1"):
+        E, K, n = w["mats"][who]
+        tight = lambda r: 1e-13 * abs(r) + 1e-300                                  # noqa: E731
+        if q == "strain":
+            return [ref.ro_strain(E, K, n, s) for s in S], tight
+        if q == "strain_scalar":
+            return [ref.ro_strain(E, K, n, S[-1])], tight
+        if q == "plastic_strain":
+            return [ref.ro_strain(E, K, n, s) - s / E for s in S], lambda r: 1e-12 * abs(r) + 1e-18   # noqa: E731
+        if q == "tangential_compliance":
+            return [ref.ro_compliance(E, K, n, s) for s in S], lambda r: 1e-12 * abs(r)               # noqa: E731
+        if q == "tangential_modulus":
+            return [1.0 / ref.ro_compliance(E, K, n, s) for s in S], lambda r: 1e-12 * abs(r)         # noqa: E731
+        if q == "delta_strain":
+            return [2 * ref.ro_strain(E, K, n, s / 2) for s in S], tight
+        loose = lambda r: C * (DEFAULT_TOL + DEFAULT_RTOL * abs(r))                # noqa: E731
+        if q == "stress":
+            return [ref.ro_stress(E, K, n, e) for e in Eb], loose
+        if q == "stress_scalar":
+            return [ref.ro_stress(E, K, n, Eb[-1])], loose
+        if q == "delta_stress":
+            return [2 * ref.ro_stress(E, K, n, e / 2) for e in Eb], lambda r: 2 * loose(r / 2)       # noqa: E731
+        if q == "lower_hysteresis":
+            smax = max(S)
+            return [ref.ro_strain(E, K, n, smax) - 2 * ref.ro_strain(E, K, n, (smax - s) / 2) for s in S], \
+                lambda r: 1e-12 * abs(ref.ro_strain(E, K, n, smax)) + 1e-300       # noqa: E731
+    if who == "H1":
+        if q == "stress":
+            return [w["E"] * e for e in Eb], lambda r: 4e-16 * abs(r)              # noqa: E731
+        return [s / w["E"] for s in S], lambda r: 4e-16 * abs(r)                   # noqa: E731
+    if q == "true_strain":
+        # judged like the point check: exp(result) is the stretch 1 + e within 4 ulp (np.log(1 + e), not log1p, is what the
+        # documented formula says; for small e they differ by more than an ulp of the RESULT but not of the stretch)
+        return [math.log(1.0 + e) for e in Eb], lambda r: 4 * math.ulp(1.0) * max(1.0, abs(r))     # noqa: E731
+    return [s * (1.0 + e) for s, e in zip(S, Eb)], lambda r: 4e-16 * abs(r)        # noqa: E731
+
+
+def _h_call(w, who, q):
+    S, Eb = w["S"], w["Eb"]
+    if who in ("M0", "M1"):
+        o = w["obj"][who]
+        if q == "strain_scalar":
+            return o.strain(float(S[-1]))
+        if q == "stress_scalar":
+            return o.stress(float(Eb[-1]))
+        if q == "lower_hysteresis":
+            return o.lower_hysteresis(S, float(S.max()))
+        return getattr(o, q)(Eb if q in ("stress", "delta_stress") else S)
+    if who == "H1":
+        return w["H1"].stress(Eb) if q == "stress" else w["H1"].strain(S)
+    from pylife.materiallaws import true_stress_strain as tss
+    return tss.true_strain(Eb) if q == "true_strain" else tss.true_stress(S, Eb)
+
+
+def history_run(mat, seq, acc, seen):
+    """Execute one sequence of operation indices on a fresh world. -> list of violations (first offence ends the run)."""
+    w = _h_world(mat)
+    for depth, oi in enumerate(seq):
+        who, q = _H_OPS[oi]
+        here = "%s.%s" % (who, q)
+        if who == "caller":
+            if q == "refill_S":
+                w["S_alt"] = not w["S_alt"]
+                w["S"][:] = [(0.5 if w["S_alt"] else 1.0) * x for x in w["S0"]]
+            elif q == "refill_E":
+                w["E_alt"] = not w["E_alt"]
+                w["Eb"][:] = [(0.5 if w["E_alt"] else 1.0) * x for x in w["E0"]]
+            elif w["last"] is not None and isinstance(w["held"][w["last"]][1], np.ndarray) and w["held"][w["last"]][1].ndim:
+                arr = w["held"][w["last"]][1]
+                if arr.flags.writeable:
+                    arr *= 1e-6
+                    w["held"][w["last"]][2] = arr.copy()
+            continue
+        sb, eb = w["S"].copy(), w["Eb"].copy()
+        with warnings.catch_warnings():
+            warnings.simplefilter("ignore")
+            try:
+                res = _h_call(w, who, q)
+            except Exception as e:      # noqa: BLE001
+                return [(_key("history/%s-raises-%s" % (here, type(e).__name__)), {"at": depth, "message": str(e)[:160]})]
+        acc.transitions += 1
+        acc.evaluations += 1
+        if not (np.array_equal(sb, w["S"]) and np.array_equal(eb, w["Eb"])):
+            return [(_key("history/%s-changes-the-callers-argument-array" % here),
+                     {"at": depth, "S_before": sb.tolist(), "S_after": w["S"].tolist(), "E_before": eb.tolist(), "E_after": w["Eb"].tolist()})]
+        got = np.asarray(res, dtype=float).reshape(-1).tolist()
+        exp, tol = _h_expected(w, who, q)
+        if len(got) != len(exp):
+            return [(_key("history/%s-wrong-shape" % here), {"at": depth, "got": got})]
+        judged = [i for i, s in enumerate(exp)] if q != "lower_hysteresis" else [int(np.argmax(w["S"]))]
+        for i in judged:
+            if not abs(got[i] - exp[i]) <= tol(exp[i]):
+                return [(_key("history/%s-not-the-formula-value-for-the-current-arguments" % here),
+                         {"at": depth, "element": i, "got": got[i], "expected": exp[i], "S": w["S"].tolist(), "Eb": w["Eb"].tolist()})]
+        reads_e = q in ("stress", "stress_scalar", "delta_stress", "true_strain", "true_stress") and not (who == "H1" and q == "strain")
+        reads_s = not reads_e or q == "true_stress"
+        k = (oi, w["S"].tobytes() if reads_s else b"", w["Eb"].tobytes() if reads_e else b"")
+        first = seen.setdefault(k, got)
+        if any(not abs(a - b) <= 1e-14 * abs(b) for a, b in zip(got, first)):
+            return [(_key("history/%s-answer-depends-on-what-was-asked-before" % here),
+                     {"at": depth, "got": got, "first_answer": first, "S": w["S"].tolist(), "Eb": w["Eb"].tolist()})]
+        for j, (name, arr, snap) in enumerate(w["held"]):
+            if isinstance(arr, np.ndarray) and not np.array_equal(arr, snap):
+                return [(_key("history/result-of-%s-held-by-the-caller-changed-by-a-later-%s" % (name, here)),
+                         {"at": depth, "held_since": j, "was": np.asarray(snap).tolist(), "now": arr.tolist()})]
+        w["held"].append([here, res, np.array(res, dtype=float, copy=True)])
+        w["last"] = len(w["held"]) - 1
+    return []
+
+
+def run_history(g, acc):
+    mat, depth, prefix = tuple(g["material"]), g["depth"], tuple(g["prefix"])
+    seen = {}
+    nops = len(_H_OPS)
+    for d in range(max(1, len(prefix)), depth + 1):
+        for rest in itertools.product(range(nops), repeat=d - len(prefix)):
+            seq = prefix + rest
+            acc.cases += 1
+            if d >= 2 and len({_H_OPS[i][0] for i in seq}) >= 2:
+                acc.nontrivial += 1
+            acc.max_depth = max(acc.max_depth, d)
+            for key, detail in history_run(mat, seq, acc, seen):
+                acc.violation(key, {"group": g, "probe": {"p": "history", "material": list(mat), "seq": list(seq),
+                                                          "ops": ["%s.%s" % _H_OPS[i] for i in seq]}}, detail)
+    acc.states += len(seen)
+    acc.outcomes |= {h64([k[0], v]) for k, v in seen.items()}
+
+
 # ------------------------------------------------------------------------------------------------- driver
 def _set_cond(g):
     if "nu" in g:
@@ -674,6 +843,8 @@ def run_shard(g):
     _set_cond(g)
     if g["kind"] == "RO":
         run_ro(g, acc)
+    elif g["kind"] == "history":
+        run_history(g, acc)
     elif g["kind"] == "hooke":
         run_hooke(g, acc)
     else:
@@ -686,6 +857,13 @@ def replay(case):
     acc = Acc()
     _set_cond(g)
     p = probe["p"]
+    if p == "history":
+        # the 'same answer in every history' oracle needs the first answer: ask the question alone first
+        seen = {}
+        for oi in probe["seq"]:
+            if _H_OPS[oi][0] != "caller":
+                history_run(tuple(probe["material"]), [i for i in probe["seq"][:probe["seq"].index(oi)] if _H_OPS[i][0] == "caller"] + [oi], Acc(), seen)
+        return history_run(tuple(probe["material"]), probe["seq"], acc, seen)
     if p == "point":
         return ro_point(g, probe, acc)[0]
     if p == "strain-point":
